@@ -33,6 +33,7 @@ EXPLANATION = (
 )
 NONTRIVIAL_RULE = "non-identity layout and at least one event that changed the configuration"
 BOUNDS = {
+    "run_isolation": "machine RI whose actions mutate nested context values in place; initial context in 5 forms (literal dict, factory building fresh values, factory spreading a shared defaults dict, factory returning one dict object every time, factory sharing one nested dict); two consecutive runs (fresh interpreters over one MachineNode) of the same 3 events out of {TICK, RETRY, RESET, PEEK}, each run on the sync or asyncio engine (symbolic): equal configurations, contexts and action lists after every event",
     "hashseed_independence": "machine DT in a child process per PYTHONHASHSEED value (symbolic, 1..16 quick / 1..64 thorough; reference seed 0), natural address-based StateNode hashing; 5 canned sequences of 5 events; sync engine, asyncio engine and the pure transition() API; traces must be equal across seeds and across the three APIs",
     "layout_independence": "machine DT (15 state nodes); event sequences of length L (item label) over 9 events; hash layout = symbolic permutation of a group of K nodes (item label; all K! permutations), other nodes keep document-order hashes; both engines",
 }
@@ -275,7 +276,123 @@ def hashseed_independence(seed: int) -> bool:
     return verdict(why is None, nontrivial=sd != 0)
 
 
-OBLIGATIONS = {"layout_independence": layout_independence, "hashseed_independence": hashseed_independence}
+# ---------------------------------------------------------------------------
+# run isolation: a second run in the same process does not see the first one
+# ---------------------------------------------------------------------------
+
+HOLD: Dict[str, Any] = {}
+RI_EVENTS = ["TICK", "RETRY", "RESET", "PEEK"]
+_RI: Dict[int, Any] = {}
+
+
+def _ri_context(form: int) -> Any:
+    """The initial context in the shapes the library accepts.  Forms 2-4 are factories whose RESULT shares mutable
+    values with the previous call (a module-level defaults dict spread into a new dict; one dict object returned again
+    and again; a fresh dict holding a shared nested dict): the library hands every interpreter a context of its own
+    ("a fresh, deep-copied context"), so what one run appends in place must not be there when the next run starts."""
+    if form == 0:
+        return {"audit": [], "n": 0, "limits": {"max": 2, "seen": []}}
+    if form == 1:
+        return lambda arg: {"audit": [], "n": 0, "limits": {"max": 2, "seen": []}}
+    if form == 2:
+        return lambda arg: {**HOLD["defaults"], "n": 0}
+    if form == 3:
+        return lambda arg: HOLD["defaults"]
+    return lambda arg: {"audit": [], "n": 0, "limits": HOLD["defaults"]["limits"]}
+
+
+def _ri_machine(form: int) -> Any:
+    m = _RI.get(form)
+    if m is None:
+        from xstate_statemachine import create_machine
+
+        env.install()
+
+        def audit(i: Any, ctx: Any, e: Any, a: Any) -> None:
+            ctx["audit"].append(e.type)              # in place, on purpose
+            ctx["limits"]["seen"].append(len(ctx["audit"]))
+            ctx["n"] = ctx.get("n", 0) + 1
+
+        def wipe(i: Any, ctx: Any, e: Any, a: Any) -> None:
+            del ctx["audit"][:]
+
+        def room(ctx: Any, e: Any) -> bool:
+            return len(ctx["audit"]) < ctx["limits"]["max"] + 1
+
+        cfg = {
+            "id": "ri", "initial": "open", "context": _ri_context(form),
+            "states": {
+                "open": {"on": {"TICK": [{"guard": "room", "actions": ["audit"]}, {"target": "full", "actions": ["audit"]}],
+                                "RETRY": {"target": "open", "reenter": True, "actions": ["audit"]}, "RESET": {"actions": ["wipe"]},
+                                "PEEK": {"actions": [{"type": "en", "params": {"s": "peek"}}]}}},
+                "full": {"entry": [{"type": "en", "params": {"s": "ri.full"}}], "on": {"RESET": {"target": "open", "actions": ["wipe"]}, "TICK": {"actions": ["audit"]}}},
+            },
+        }
+        m = create_machine(cfg, logic=make_logic(actions={"audit": audit, "wipe": wipe}, guards={"room": room}))
+        env.pin_hashes(m)
+        _RI[form] = m
+    return m
+
+
+def _ri_trace(eng: int, m: Any, evs: List[str]) -> List[Any]:
+    from xstate_statemachine import Interpreter, SyncInterpreter
+
+    out: List[Any] = []
+
+    def snap(it: Any) -> None:
+        out.append((sorted(n.id for n in it._active_state_nodes), copy.deepcopy(dict(it.context)), [(k, s) for k, s, _e in it.__dict__["_rec"]]))
+        it.__dict__["_rec"].clear()
+
+    if eng == 0:
+        it = SyncInterpreter(m)
+        it.__dict__["_rec"] = []
+        it.start()
+        snap(it)
+        for e in evs:
+            it.send(e)
+            snap(it)
+        it.stop()
+        return out
+    it = Interpreter(m)
+    it.__dict__["_rec"] = []
+
+    async def go() -> None:
+        await it.start()
+        snap(it)
+        for e in evs:
+            await it.send(e)
+            await it._event_queue.join()
+            snap(it)
+        await it.stop()
+
+    common.drive(go())
+    return out
+
+
+def run_isolation(form: int, eng1: int, eng2: int, e0: int, e1: int, e2: int) -> bool:
+    """
+    pre: gate('run_isolation', form=form)
+    post: _
+    """
+    f = pick(form, 5)
+    g1 = pick(eng1, 2)
+    g2 = pick(eng2, 2)
+    evs = [RI_EVENTS[pick(e, len(RI_EVENTS))] for e in (e0, e1, e2)]
+    HOLD["defaults"] = {"audit": [], "limits": {"max": 2, "seen": []}}
+    m = _ri_machine(f)
+    first = _ri_trace(g1, m, evs)
+    second = _ri_trace(g2, m, evs)
+    ok = first == second
+    if not ok:
+        for k, (a, b) in enumerate(zip(first, second)):
+            if a != b:
+                _note(f"context form {f}, events {evs}: run 1 ({'sync' if g1 == 0 else 'async'}) and run 2 ({'sync' if g2 == 0 else 'async'}) "
+                      f"of the same machine in one process differ at step {k} ({'start' if k == 0 else evs[k - 1]}): {a} vs {b}")
+                break
+    return verdict(ok, nontrivial=any(e in ("TICK", "RETRY") for e in evs))
+
+
+OBLIGATIONS = {"layout_independence": layout_independence, "hashseed_independence": hashseed_independence, "run_isolation": run_isolation}
 PROBES = {"layout_independence": [{"p0": 1, "e0": 3, "e1": 4}, {"p0": 2, "p1": 1, "e0": 0, "e1": 3, "e2": 4}, {"p0": 1, "e0": 3, "e1": 5}, {"p0": 3, "p1": 0, "e0": 0, "e1": 7}]}
 
 GROUPS = {
@@ -314,6 +431,7 @@ def items(tier: str, seed: int) -> List[Dict[str, Any]]:
             for first in ("LEAVE", "BACK"):
                 out.append({"ob": "layout_independence", "params": {"group": GROUPS[g], "prefix": [first], "L": 3}, "timeout": 1300,
                             "label": f"layout_independence[{g},K=5,{first}+2]"})
+    out.append({"ob": "run_isolation", "params": {"group": []}, "timeout": 300, "label": "run_isolation[5 context forms x 2x2 engines x 3 events]"})
     for lo in range(0, 16 if quick else 64, 4):
         out.append({"ob": "hashseed_independence", "params": {"group": [], "seeds": [lo + 1, lo + 5]}, "timeout": 300,
                     "label": f"hashseed_independence[PYTHONHASHSEED {lo + 1}..{lo + 4}]"})
